@@ -84,7 +84,12 @@ def generic_runner(P, exe, model_ok, rng, tier, replay=None):
             continue
         # oracle on the implementation's outputs
         for orc in P.get("oracles", []):
-            for clause, wit in orc(si)[:5]:
+            try:
+                ofails = orc(si)[:5]
+            except Exception as ex:  # an oracle that cannot evaluate an output is itself a finding
+                import traceback
+                ofails = [("oracle_error", "%s: %s" % (type(ex).__name__, traceback.format_exc().strip().split("\n")[-3:]))]
+            for clause, wit in ofails:
                 cause = P.get("cause", lambda s, f: "other")(si, (clause, wit))
                 fails.append(dict(clause=clause, cause=cause, witness="scenario %s: %s" % (sid, wit), scenario_text=text_of[sid]))
         # correspondence with the model
